@@ -8,7 +8,7 @@ the clean tree (expected to pass). Results are stored in /verif/seeded/<ID>-<k>/
 /repo is always left as it was (git checkout + removal of the demo file)."""
 import json, os, re, shutil, subprocess, sys, glob
 
-ENV = dict(os.environ, PATH="/opt/veriftools/go1.26.8/bin:" + os.environ["PATH"], GOTOOLCHAIN="local", GOFLAGS="-mod=mod", GOPROXY="off", GOSUMDB="off", GOWORK="off")
+ENV = dict(os.environ, WT="/repo", REPO="/repo", PATH="/opt/veriftools/go1.26.8/bin:" + os.environ["PATH"], GOTOOLCHAIN="local", GOFLAGS="-mod=mod", GOPROXY="off", GOSUMDB="off", GOWORK="off")
 REPO = "/repo"
 
 def sh(cmd, cwd=REPO, timeout=1800):
@@ -28,7 +28,7 @@ def demo_target(path):
 
 def run_demo(demo, k):
     if demo.endswith(".sh"):
-        rc, out = sh("bash %s" % demo)
+        rc, out = sh("bash %s /repo" % demo)
         return rc, out[-1500:]
     d, run = demo_target(demo)
     if not d or not os.path.isdir(os.path.join(REPO, d)):
